@@ -7,7 +7,7 @@ PROP = {
     "go_test": "TestC11",
     "claimed": True,
     "level_text": "Kernel-checked theorems (11, closed under the global context) about a handler-level permission model that is DEFINED FROM TABLES REGENERATED FROM THE GO SOURCE ON EVERY RUN (translate/goextract: go/parser over x/exchange/keeper/{msg_server,market,orders,payments}.go, x/exchange/msgs.go and every handler under x/*/ whose request has an Authority field): for every endpoint of the generated table, every store of grants, market and caller, getting past the guard implies the caller is the authority or holds THE DOCUMENTED permission on THAT market (documented table transcribed from spec/01_concepts.md, 03_messages.md and market.proto); generated table = documented table; HasPermission/storeHasPermission have the documented shape; every governance endpoint of every module (33 rows) compares msg.Authority with the keeper's authority as the first statement that touches the keeper (4 documented non-governance exceptions have exactly the documented alternative and write nothing first); UpdatePermissions (three loops with error accumulation, rollback) changes no triple a request does not name, over any sequence of requests; CancelOrder succeeds only for owner / authority / PERMISSION_CANCEL on the order's market and an order survives any sequence of cancellations by others; payments are touched only by their target (accept/reject) or source (cancel/retarget) and survive any sequence of operations by third parties. Each run also drives the real message router through the complete matrix 13 endpoints x 128 permission subsets x {unrelated, all-permissions-on-another-market, authority} (+ CancelOrder x 4 signer kinds x 128), a cross-market matrix (request names the caller's own market, the ask/bid order or commitment acted on belongs to the other market; 1,417 requests + 774 cancellations, both directions, 128 subsets; theorem C11_cross_market_items), 116 payment role cases + payment histories, MarketManagePermissions histories with a frame check on 112 triples after every step, and a sweep over all 59 registered sdk.Msg types with an Authority field sent by a non-authority (rejected, store digest unchanged; the same request passes for the authority for all 35 live endpoints of the modules under x/ and 8 SDK ones; each governance-only request of the modules under x/ is also sent by holders of every single market permission and all seven on the named markets, of all marker access, and by the name/trigger owner: 88 requests, all rejected), and evaluates model agreement and the documented rule on every observation inside Coq.",
-    "level_note": "Trusted: Coq kernel + vm_compute; the table extractor translate/goextract (450 lines, std-lib go/ast only; anything it does not recognise is emitted as an Unrecognised row, which makes the table theorems fail) and gen_coq.py; the hand transcription of the DOCUMENTED tables in Exchange/Perms.v and Exchange/GovGuards.v; the hand-written store-level models of UpdatePermissions, CancelOrder and the payment functions (tied to the code by the correspondence run only, bounded by its generators); the Go harness' projection (passed = handler returned no error; grants read back through GetAccessGrants; store digest = sha256 over every KV store). The translator reads guard SHAPES syntactically: it does not prove that a Can* helper or ValidateAuthority is semantically what its text says beyond the extracted bodies of HasPermission, storeHasPermission, IsAuthority, ValidateAuthority and GetAuthority, which are pinned to accepted source text. No axioms.",
+    "level_note": "Trusted: Coq kernel + vm_compute; the table extractor translate/goextract (std-lib go/ast only; rows are alpha-normalised — locals inlined by what they are bound to, parameters by position, getters as fields, error values dropped — and guards are recognised through those bindings, so renames, hoisting, if-with-init vs assignment+if, swapped ==/!= operands, !strings.EqualFold and else{if} vs else-if give the same row; anything it does not recognise is emitted as an Unrecognised row, which makes the table theorems fail) and gen_coq.py; the hand transcription of the DOCUMENTED tables in Exchange/Perms.v and Exchange/GovGuards.v; the hand-written store-level models of UpdatePermissions, CancelOrder and the payment functions (tied to the code by the correspondence run only, bounded by its generators); the Go harness' projection (passed = handler returned no error; grants read back through GetAccessGrants; store digest = sha256 over every KV store). The translator reads guard SHAPES syntactically: it does not prove that a Can* helper or ValidateAuthority is semantically what its text says beyond the extracted bodies of HasPermission, storeHasPermission, IsAuthority, ValidateAuthority and GetAuthority, which are pinned to accepted source text. No axioms.",
     "technique": "source-to-Coq table translator (go/ast) + Coq proof over the generated tables (vm_compute lifted with forallb_forall, induction over request histories) + exhaustive behavioural matrix on the real code evaluated in Coq",
     "coq_files": ["Exchange/PermTypes.v", "Gen/GenExchangePerms.v", "Gen/GenGovEndpoints.v", "Exchange/Perms.v",
                   "Exchange/GovGuards.v", "Proofs/PermsProofs.v", "Corr/CorrBase.v", "Corr/C11.v"],
@@ -51,5 +51,5 @@ def pre(ctx):
     tables["unrecognised"] = info["unrecognised"]
     # obligations over generated tables: one per generated Definition that a theorem constrains
     # (gen_endpoints, gen_can_helpers, gen_has_permission, gen_store_has_permission, gen_cancel_order,
-    #  gen_payment_funcs, gen_custom_signers, gen_gov_endpoints, gen_authority_funcs)
-    return {"obligations": 9, "tables": tables, "rewritten": info["rewritten"], "extract_json": os.path.relpath(jpath, verif)}
+    #  gen_payment_funcs, gen_custom_signers, gen_gov_endpoints, gen_authority_funcs, gen_delegations)
+    return {"obligations": 10, "tables": tables, "rewritten": info["rewritten"], "extract_json": os.path.relpath(jpath, verif)}
